@@ -8,7 +8,8 @@ Driver for C15.  One case = one history.  Op lines (integer tokens, `_` = resour
 After every op: `res <0|1>`, then the recorded topology:
   `q <name> <parent> <isParent> <tree> <force> <treeRoot> <min>*3 <max>*3` (by name),
   `h <key> <child>*` (by key, children sorted), `n <ns> <quota>` (by ns).
-Dimensions are fixed to d = 3 (cpu, memory, gpu).  Creating the root-named object is outside the model.
+Dimensions are fixed to d = 3 (cpu, memory, gpu).  Name 99 = the empty parent name "" (only the root-named object
+can carry it); a create of the root-named object (name 0) runs the model like any other create.
 -/
 namespace KoordVerif.C15
 open KoordVerif.Proto
@@ -47,7 +48,7 @@ def parseOp (line : String) : Option Op :=
   match toks line with
   | "add" :: rest =>
     match parseReq rest with
-    | some (q, sw, _) => if q.name = 0 then none else some (.add q sw)
+    | some (q, sw, _) => some (.add q sw)
     | none => none
   | "upd" :: rest =>
     match parseReq rest with
